@@ -107,20 +107,21 @@ fn mount(route: &'static str, dir: &'static str, omit: &[String], dotted: bool) 
     r.map_err(panic_msg)
 }
 
-fn one_request(router: &v::VRouter, m: &str, target: &str) -> (Vec<u8>, String) {
+/// `cap`: the connection accepts at most that many bytes per write call (0: everything), as a socket whose send buffer is nearly full does
+fn one_request(router: &v::VRouter, m: &str, target: &str, cap: usize) -> (Vec<u8>, String) {
     let raw = format!("{m} {target} HTTP/1.1\r\nHost: verif.test\r\nAccept: */*\r\n\r\n").into_bytes();
     let router = router.clone();
     let out = util::block_on(async move {
         let mut rd = util::ScriptedReader::new(vec![raw]);
         let mut rq = v::VRequest::new();
-        let mut buf: Vec<u8> = Vec::new();
+        let mut buf = util::ShortWriter::new(cap);
         let how;
         match rq.read(&mut rd).await {
             Ok(Some(())) => { let res = rq.handle(&router).await; v::send(res, &mut buf).await; how = "handled" }
             Ok(None) => { how = "no-request" }
             Err(res) => { v::send(res, &mut buf).await; how = "refused-by-parser" }
         }
-        (buf, how.to_string())
+        (buf.out, how.to_string())
     });
     out
 }
@@ -195,12 +196,14 @@ pub fn run(scn: &Value) -> Value {
 
     // ---- requests
     let mut resps = vec![];
-    for rq in util::arr(&scn["reqs"]) {
+    let salt = scn["salt"].as_u64().unwrap_or(0) as usize;
+    for (nreq, rq) in util::arr(&scn["reqs"]).iter().enumerate() {
+        let cap = [0usize, 4096, 0, 1000, 65_536, 37][(salt + nreq) % 6];
         let m = util::s(&rq["m"]).to_string();
         let target = text(&rq["path"]);
         let router2 = router.clone();
         let (m2, t2) = (m.clone(), target.clone());
-        let r = std::panic::catch_unwind(std::panic::AssertUnwindSafe(move || one_request(&router2, &m2, &t2)));
+        let r = std::panic::catch_unwind(std::panic::AssertUnwindSafe(move || one_request(&router2, &m2, &t2, cap)));
         let o = match r {
             Err(e) => json!({"k": "panic", "status": 0, "mt": "", "eq": [], "eqall": [], "eqlate": false, "eqout": false, "blen": 0, "tail": 0,
                              "framing": "", "cl": "", "nct": 0, "err": util::clip(&panic_msg(e), 120), "target": target}),
@@ -244,7 +247,7 @@ fn pathdiff(p: &Path, base: &Path) -> Option<PathBuf> {
 
 // ------------------------------------------------------------------------------------------------ random generator
 const EXTS: [&str; 16] = ["txt", "html", "css", "js", "xml", "csv", "tsv", "vcard", "jpeg", "gif", "png", "svg", "woff", "woff2", "json", "pdf"];
-const STEMS: [&str; 16] = ["a", "b", "ab", "index", "a.min", "x-1", "y_2", "Z", "0", "about", "a.b.c", "inde", "indexx", "sub", "d", "v1"];
+const STEMS: [&str; 18] = ["a", "b", "ab", "index", "a.min", "x-1", "y_2", "Z", "0", "about", "a.b.c", "inde", "indexx", "sub", "d", "v1", "reindex", "x.index"];
 const DIRS: [&str; 9] = ["sub", "deep", "a", "ab", "d.js", "v1.html", "x-1", "assets", "index"];
 
 fn is_text_ext(e: &str) -> bool { matches!(e, "txt" | "html" | "css" | "js" | "xml" | "csv" | "tsv" | "vcard") }
